@@ -162,6 +162,8 @@ def run(prop, tier, seed, args):
                 continue
             rep.violation(v["ident"], {"kind": "obligation-only", "obligation": v["ident"], "solver": "frame checker: region is not local / instance / parameter",
                                        "detail": v["detail"]}, no_input=True)
+        for v in extra.get("undecided", []):
+            undecided.append((v["ident"], "frame checker: suspicious site, not decisive: " + str(v["detail"].get("call", ""))[:160]))
         per_ob.append({"name": "frame#site(*) x %d" % extra["obligations"], "verdict": "discharged by vf/pyvc/frame.py" if not extra["violations"] else "some refuted",
                        "backend": "frame-checker", "ms": 0})
         rep.extra["frame_checker"] = extra["details"]
